@@ -11,7 +11,7 @@ import time
 import z3
 
 from vlib import env
-from vlib.zrun import wrapper_exc, explore_and_prove, eq_term, concretize, pyrepr
+from vlib.zrun import twin_verdict, wrapper_exc, explore_and_prove, eq_term, concretize, pyrepr
 from vlib.zsym import Real, SymNum, SymTypeError, lift, model_value
 
 META = {
@@ -108,7 +108,7 @@ def task_shape(r, p, c):
     o = explore_and_prove(fn, assum, goal, max_paths=60000, deadline_s=400, timeout_ms=30000)
     ot = explore_and_prove(fn, assum, lambda q: goal(q, True), max_paths=60000, deadline_s=60, max_fail=1)
     res = dict(engine="Z", functions=[env.describe(balance_stoichiometry)], obligations=o.obligations, discharged=o.discharged, violations=[],
-               inconclusive=list(o.inconclusive), queries=o.queries, paths=o.paths, solver_s=o.solver_s, twin="violated" if ot.failed else "passed",
+               inconclusive=list(o.inconclusive), queries=o.queries, paths=o.paths, solver_s=o.solver_s, twin=twin_verdict(ot),
                bounds="%d reactants x %d products x keys %s" % (r, p, keys),
                sample={"reactants": r, "products": p, "keys": keys, "compositions": "symbolic"})
     for pth, m, g in o.failed[:1]:
